@@ -188,7 +188,7 @@ def grammars(ctx):
     for text in ('cmd [((b | a | b))... (b | a a) b];\n', 'cmd [a | a a]...;\n',
                  'cmd --o=(x|y|xz)... [a | a a]...;\n', 'cmd;\n', 'cmd a;\n'):
         out.append(('witness', text.encode()))
-    nrand = 60000 if thorough else 3000
+    nrand = 250000 if thorough else 3000
     g = gen.Gen(r, lits=['a', 'b', 'c', '--opt'], sub_lits=['x', 'y', 'zz', '--k='], p_descr=0.05, p_nt=0.1, p_cmd=0.05)
     for k in range(nrand):
         x = r.random()
@@ -407,7 +407,7 @@ def run(ctx, res):
                 'suffixes followed by tails re-entering the loop letters, [a | a a]...-like all-accepting shapes, random trees over '
                 '2-3 literals, within-word expressions, general grammars; each distinct raw automaton (main and within-word) counted '
                 'once; non-trivial = raw automaton with >= 3 states that minimisation makes strictly smaller'
-                % ((8, 8, 60000) if ctx['tier'] == 'thorough' else (6, 6, 3000)))
+                % ((8, 8, 250000) if ctx['tier'] == 'thorough' else (6, 6, 3000)))
     res.extra['stage'] = 'DFA::minimize on DFA::from_regex_raw (main automaton and every within-word automaton)'
     res.extra['grammars'] = len(cases)
     res.extra['grammars_rejected_before_minimisation'] = rejected
